@@ -13,6 +13,16 @@
       obligations evaluated on the generated model in every run;
     - [calc_fields], [read_le] (Model/Registers.v): models of [CalculateRegisterFields] (uint8
       size arithmetic, running-total shift, wrapping uint64 mask) and of the little-endian readers;
+    - [txt_layout] (Model/Registers.v): the 16 supported TXT registers as (ID, offset, size in
+      bytes) in the order of the table in txt.go (ordered by name, NOT by offset);
+      [read_regs layout img] = model of the [ReadTXTRegisters] loop on an image of ANY length:
+      (collection of (ID, value), failures of (ID, [ErrEOF] | [ErrUnexpectedEOF])), every entry
+      tried whatever happened to the others; [read_txt] = [read_regs txt_layout];
+      [read_err_of img off]: [ErrEOF] when the image ends at or before [off], else
+      [ErrUnexpectedEOF];
+    - [ids], [fits img e] (extent of entry [e] lies inside [img]), [le_at img off n] (little-
+      endian value of the [n] bytes at [off], which depends on no other byte: it is
+      [le_value (firstn n (skipn off img))]), [disjoint_entries] (Proofs/RegistersRead.v);
     - [fields_spec raw size l] (Proofs/Registers.v): every declared field [(name, offset)] with
       its range [(offset, sz)] from [field_ranges] and the value [bits offset sz raw];
     - [contiguous start rs stop] (Proofs/Registers.v): the first range of [rs] starts at [start],
@@ -31,7 +41,7 @@
       the functions that build these results and the obligation evaluated on it in every run. *)
 From Coq Require Import NArith String List.
 From CSS Require Import Lib.SymBits Lib.RegTypes Lib.RegOblig Lib.RegFresh Model.Registers Model.RegisterHeap.
-From CSS Require Import Proofs.SymBits Proofs.Registers Proofs.RegisterHeap.
+From CSS Require Import Proofs.SymBits Proofs.Registers Proofs.RegisterHeap Proofs.RegistersRead.
 Import ListNotations.
 Open Scope N_scope.
 
@@ -189,6 +199,96 @@ Theorem C04_read_le_none : forall img off n,
   read_le img off n = None <-> (length img < off + n)%nat.
 Proof. exact read_le_none. Qed.
 Print Assumptions C04_read_le_none.
+
+(** * 4b. [ReadTXTRegisters] on images of every length, register by register
+
+    The property quantifies over the images "of at least the register's extent" PER REGISTER:
+    an image that is too short for some registers still has to yield every register it holds. *)
+
+(** For every table with distinct IDs, every image and every entry whose extent fits: the
+    collection contains that register, exactly once, with the little-endian value of the bytes
+    of its own extent — whatever the other entries are, wherever they stand in the table, and
+    whether they can be read or not. *)
+Theorem C04_read_regs_fitting : forall layout img id off n,
+  NoDup (ids layout) -> In (id, off, n) layout -> (off + n <= length img)%nat ->
+  In (id, le_at img off n) (fst (read_regs layout img)) /\
+  forall w, In (id, w) (fst (read_regs layout img)) -> w = le_at img off n.
+Proof. exact read_regs_fitting. Qed.
+Print Assumptions C04_read_regs_fitting.
+
+(** Nothing else is in the collection: every register returned is an entry of the table whose
+    extent lies inside the image, with that value. *)
+Theorem C04_read_regs_sound : forall layout img id v,
+  In (id, v) (fst (read_regs layout img)) ->
+  exists off n, In (id, off, n) layout /\ (off + n <= length img)%nat /\ v = le_at img off n.
+Proof. exact read_regs_sound. Qed.
+Print Assumptions C04_read_regs_sound.
+
+(** The error lists exactly the registers that do not fit (with io.EOF iff the image ends at or
+    before the register's offset). *)
+Theorem C04_read_regs_errors : forall layout img id k,
+  In (id, k) (snd (read_regs layout img)) <->
+  exists off n, In (id, off, n) layout /\ (length img < off + n)%nat /\ k = read_err_of img off.
+Proof. exact read_regs_errors. Qed.
+Print Assumptions C04_read_regs_errors.
+
+(** Collection and error list are both in table order and partition the table. *)
+Theorem C04_read_regs_order : forall layout img,
+  map fst (fst (read_regs layout img)) = ids (filter (fits img) layout) /\
+  map fst (snd (read_regs layout img)) = ids (filter (fun e => negb (fits img e)) layout) /\
+  (length (fst (read_regs layout img)) + length (snd (read_regs layout img)) = length layout)%nat.
+Proof. exact (fun layout img => conj (read_regs_ids layout img) (conj (read_regs_err_ids layout img) (read_regs_partition layout img))). Qed.
+Print Assumptions C04_read_regs_order.
+
+(** Making an image longer never loses or changes a register that was read. *)
+Theorem C04_read_regs_extend : forall layout img ext id v,
+  In (id, v) (fst (read_regs layout img)) -> In (id, v) (fst (read_regs layout (img ++ ext))).
+Proof. exact read_regs_extend. Qed.
+Print Assumptions C04_read_regs_extend.
+
+(** The 16 TXT registers: distinct IDs, pairwise disjoint extents. *)
+Theorem C04_txt_layout_wf : NoDup (ids txt_layout) /\ ForallOrdPairs disjoint_entries txt_layout.
+Proof. exact (conj txt_ids_nodup txt_extents_disjoint). Qed.
+Print Assumptions C04_txt_layout_wf.
+
+(** The clause of the property, for [ReadTXTRegisters]: for every image (bytes < 256) and every
+    supported register whose extent lies inside it, the result holds that register once, and its
+    value is the little-endian number stored at the register's offset (digit [i] = byte
+    [off + i]).  No lower bound on the image length other than the register's own extent. *)
+Theorem C04_read_txt_register : forall img id off n,
+  (forall b, In b img -> b < 256) ->
+  In (id, off, n) txt_layout -> (off + n <= length img)%nat ->
+  exists v, In (id, v) (fst (read_txt img)) /\
+            (forall w, In (id, w) (fst (read_txt img)) -> w = v) /\
+            v < 256 ^ N.of_nat n /\
+            forall i, (i < n)%nat -> (v / 256 ^ N.of_nat i) mod 256 = nth (off + i) img 0.
+Proof. exact read_txt_register. Qed.
+Print Assumptions C04_read_txt_register.
+
+Theorem C04_read_txt_errors : forall img id k,
+  In (id, k) (snd (read_txt img)) <->
+  exists off n, In (id, off, n) txt_layout /\ (length img < off + n)%nat /\ k = read_err_of img off.
+Proof. exact read_txt_errors. Qed.
+Print Assumptions C04_read_txt_errors.
+
+(** The error is nil exactly for images that hold the whole register area (0x420 = 1056 bytes);
+    then all 16 registers are returned, in table order. *)
+Theorem C04_read_txt_error_nil : forall img, snd (read_txt img) = [] <-> (1056 <= length img)%nat.
+Proof. exact read_txt_error_nil. Qed.
+Print Assumptions C04_read_txt_error_nil.
+
+Theorem C04_read_txt_complete : forall img, (1056 <= length img)%nat ->
+  snd (read_txt img) = [] /\ map fst (fst (read_txt img)) = ids txt_layout.
+Proof. exact read_txt_complete. Qed.
+Print Assumptions C04_read_txt_complete.
+
+(** The correspondence cases evaluate the model on a sparse description of the image
+    ([read_regs_sparse], Model/RegistersCases.v); that IS [read_regs] on the image described. *)
+Theorem C04_read_cases_run_the_model : forall layout len bytes,
+  CSS.Model.RegistersCases.read_regs_sparse layout len bytes =
+  read_regs layout (CSS.Model.RegistersCases.expand (N.to_nat len) bytes).
+Proof. exact read_regs_sparse_expand. Qed.
+Print Assumptions C04_read_cases_run_the_model.
 
 (** * 5. Results are fresh values: sequences of calls and writes into returned byte slices *)
 
